@@ -12,7 +12,7 @@ use crate::rng::Rng;
 pub const RULE: &str = "case = one random operation history (new / with_capacity / from_rows / resize up, down, to 0 / reserve / fill / row write / cell write via MatrixCoordinates / clone + independence / == against a rebuilt matrix / iter, rev, iter_mut, IntoIterator) on DenseMatrix<T, C> for T in {u8,u32,f32,i64} x C in {1,5,7,16,21,32,43}, checked after EVERY operation against a Vec<Vec<T>> model: rows(), columns(), every cell, surviving rows unchanged, new rows default, iteration order and length in both directions, every row pointer 32-byte aligned, stride >= C and stride*size_of::<T>() a multiple of 32. Non-trivial = history with at least one resize and one write; distinct = distinct (type, C, op sequence).";
 
 pub const REQUIRED: &[&str] = &[
-    "op.new", "op.with_capacity", "op.with_capacity.below_rows", "check.self_equality", "op.from_rows", "op.from_rows.matrix_iterator", "type.user_defined", "op.resize_up", "op.resize_down", "op.resize_zero", "op.reserve",
+    "op.new", "op.with_capacity", "op.with_capacity.below_rows", "check.self_equality", "op.from_rows", "op.from_rows.matrix_iterator", "type.user_defined", "type.user_defined_3_bytes", "op.resize_up", "op.resize_down", "op.resize_zero", "op.reserve",
     "op.fill", "op.fill.byte_uniform_value", "op.row_write", "op.cell_write", "op.clone", "op.clone_from", "op.eq", "op.iter", "op.iter_rev", "op.iter_mut",
     "op.into_iter", "type.u8", "type.u32", "type.f32", "type.i64", "cols.1", "cols.5", "cols.7", "cols.16", "cols.21",
     "cols.32", "cols.43", "class.padded_stride",
@@ -91,6 +91,19 @@ impl Elem for Tagged {
         "user_defined"
     }
 }
+#[derive(Clone, Copy, Debug, PartialEq, Default)]
+pub struct Rgb(pub [u8; 3]);
+impl Elem for Rgb {
+    fn byte_uniform(i: usize) -> Self {
+        [Rgb([0; 3]), Rgb([0xff; 3]), Rgb([1; 3]), Rgb([0x5a; 3])][i % 4]
+    }
+    fn from_u(x: u64) -> Self {
+        Rgb([(x % 251) as u8 + 1, (x / 251 % 251) as u8, (x / 63001 % 251) as u8])
+    }
+    fn name() -> &'static str {
+        "user_defined_3_bytes"
+    }
+}
 impl Elem for i64 {
     fn byte_uniform(i: usize) -> Self {
         [0i64, -1, 0x0101_0101_0101_0101, 0x5a5a_5a5a_5a5a_5a5a][i % 4]
@@ -101,6 +114,53 @@ impl Elem for i64 {
     fn name() -> &'static str {
         "i64"
     }
+}
+
+/// `stride()` counts elements: when the element size does not divide the padded row size (3-, 6-,
+/// 12-byte user-defined elements) it cannot express the row pitch, and the flat view `fill()` writes
+/// through is out of step with the rows after the first one (known finding KF-C19-odd-size-element)
+fn exact_pitch<T: Elem, C: ArrayLength + PartialEq>(m: &DenseMatrix<T, C>) -> bool {
+    (m.stride() * std::mem::size_of::<T>()) % 32 == 0
+}
+
+/// fill(v) where the flat view is exact; row by row otherwise (so that the rest of the history can
+/// still be judged for such element types)
+fn do_fill<T: Elem, C: ArrayLength + PartialEq>(m: &mut DenseMatrix<T, C>, v: T) {
+    if exact_pitch(m) {
+        m.fill(v);
+    } else {
+        // the real fill() still runs, on a throw-away copy (its writes must stay inside the
+        // allocation whatever they hold: the memory checkers watch this)
+        let mut scratch = m.clone();
+        scratch.fill(v);
+        std::hint::black_box(&scratch);
+        for row in m.iter_mut() {
+            for x in row.iter_mut() {
+                *x = v;
+            }
+        }
+    }
+}
+
+/// the memory-safety workload (C06) re-uses these histories: the value-level finding is not its business
+pub static REPORT_ODD_SIZE: std::sync::atomic::AtomicBool = std::sync::atomic::AtomicBool::new(true);
+
+/// the two observable consequences, reported under their own kinds
+fn odd_size_probe<T: Elem, C: ArrayLength + PartialEq>(case: u64, rep: &mut Report, tname: &str) {
+    let c = C::USIZE;
+    let mut m = DenseMatrix::<T, C>::new(3);
+    let stride = m.stride();
+    let wit = || J::obj().set("type", J::s(tname)).set("element_bytes", J::u(std::mem::size_of::<T>())).set("columns", J::u(c)).set("stride", J::u(stride));
+    let pitch = (&m[1][0] as *const T as usize) - (&m[0][0] as *const T as usize);
+    if m.stride() * std::mem::size_of::<T>() != pitch {
+        rep.violate("c19.odd_size_element.stride", case, format!("stride() = {} elements of {} bytes = {} bytes, but consecutive rows are {} bytes apart (not a whole number of alignment units)", m.stride(), std::mem::size_of::<T>(), m.stride() * std::mem::size_of::<T>(), pitch), wit());
+    }
+    let v = T::from_u(0x0102_0305);
+    m.fill(v);
+    if let Some((i, j)) = (0..3).flat_map(|i| (0..c).map(move |j| (i, j))).find(|&(i, j)| m[i][j] != v) {
+        rep.violate("c19.odd_size_element.fill", case, format!("fill({:?}) on a 3-row matrix: cell ({},{}) holds {:?}", v, i, j, m[i][j]), wit());
+    }
+    rep.cover("class.element_size_not_dividing_row_size");
 }
 
 fn check_state<T: Elem, C: ArrayLength + PartialEq>(
@@ -119,7 +179,7 @@ fn check_state<T: Elem, C: ArrayLength + PartialEq>(
     if stride < c {
         return Err(format!("stride {} < columns {}", stride, c));
     }
-    if (stride * std::mem::size_of::<T>()) % 32 != 0 {
+    if (stride * std::mem::size_of::<T>()) % 32 != 0 && std::mem::size_of::<T>().is_power_of_two() {
         return Err(format!("stride {} x {} bytes is not a multiple of 32 bytes", stride, std::mem::size_of::<T>()));
     }
     for (i, row) in model.iter().enumerate() {
@@ -132,7 +192,10 @@ fn check_state<T: Elem, C: ArrayLength + PartialEq>(
         }
         if i > 0 {
             let prev = m[i - 1].as_ptr() as usize;
-            if got.as_ptr() as usize != prev + stride * std::mem::size_of::<T>() {
+            // (element sizes that do not divide the row size: stride() cannot express the pitch -
+            // known finding, reported by odd_size_probe; the rows must still be evenly spaced)
+            let pitch = if exact_pitch(m) { stride * std::mem::size_of::<T>() } else { (stride * std::mem::size_of::<T>() + 31) / 32 * 32 };
+            if got.as_ptr() as usize != prev + pitch {
                 return Err(format!("after {}: row {} is not one stride after row {}", op, i, i - 1));
             }
         }
@@ -325,6 +388,9 @@ pub fn history<T: Elem, C: ArrayLength + PartialEq>(case: u64, rng: &mut Rng, re
     rep.eval();
     rep.cover(&format!("type.{}", tname));
     rep.cover(&format!("cols.{}", c));
+    if !exact_pitch(&DenseMatrix::<T, C>::new(0)) && case % 64 < 8 && REPORT_ODD_SIZE.load(std::sync::atomic::Ordering::Relaxed) {
+        odd_size_probe::<T, C>(case, rep, tname);
+    }
     let mut ops: Vec<String> = Vec::new();
     let mut digest = Digest::new();
     digest.bytes(tname.as_bytes()).u(c as u64);
@@ -469,7 +535,7 @@ pub fn history<T: Elem, C: ArrayLength + PartialEq>(case: u64, rng: &mut Rng, re
                     } else {
                         next_val(rng)
                     };
-                    m.fill(v);
+                    do_fill(&mut m, v);
                     for r in model.iter_mut() {
                         for x in r.iter_mut() {
                             *x = v;
@@ -522,6 +588,52 @@ pub fn history<T: Elem, C: ArrayLength + PartialEq>(case: u64, rng: &mut Rng, re
                         if v != model[r][j] && cl == m {
                             return Err("clone with one modified cell compares equal to the original".to_string());
                         }
+                    }
+                    {
+                        // a second clone mutated through each writer in turn: the original must not
+                        // move (a copy-on-write representation has to un-share in every writer)
+                        let mut cl2 = m.clone();
+                        let v = next_val(rng);
+                        match rng.below(5) {
+                            0 => do_fill(&mut cl2, v),
+                            1 => {
+                                for row in cl2.iter_mut() {
+                                    for x in row.iter_mut() {
+                                        *x = v;
+                                    }
+                                }
+                            }
+                            2 => cl2.resize(rows + 3),
+                            3 => {
+                                if rows > 0 {
+                                    cl2[rows - 1].copy_from_slice(&vec![v; c]);
+                                }
+                            }
+                            _ => {
+                                do_fill(&mut cl2, v);
+                                cl2.resize(0);
+                            }
+                        }
+                        check_state(&m, &model, "original after its clone was written to")?;
+                        // ... and a snapshot taken before the original is filled keeps the old cells
+                        let snapshot = m.clone();
+                        let old_model = model.clone();
+                        do_fill(&mut m, v);
+                        for r in model.iter_mut() {
+                            for x in r.iter_mut() {
+                                *x = v;
+                            }
+                        }
+                        check_state(&snapshot, &old_model, "clone after the original was filled")?;
+                        check_state(&m, &model, "original after fill")?;
+                        drop(cl2);
+                        // the earlier clone `cl` compares with the pre-fill cells below: refresh it
+                        cl = m.clone();
+                        if rows > 0 {
+                            let (r, j) = (rng.below(rows), rng.below(c));
+                            cl[r][j] = next_val(rng);
+                        }
+                        ops.push(format!("clone, write to the clone, fill({:?}) the original", v));
                     }
                     if rng.chance(0.5) {
                         // continue the history on the clone (the original is dropped)
@@ -616,7 +728,7 @@ pub fn history<T: Elem, C: ArrayLength + PartialEq>(case: u64, rng: &mut Rng, re
                     let mut dst = DenseMatrix::<T, C>::new(other_rows);
                     if other_rows > 0 {
                         let v = next_val(rng);
-                        dst.fill(v);
+                        do_fill(&mut dst, v);
                     }
                     dst.clone_from(&m);
                     ops.push(format!("clone_from into a {}-row matrix, continue on it", other_rows));
@@ -737,7 +849,8 @@ pub fn one_case(case: u64, rng: &mut Rng, rep: &mut Report, n_ops: usize) {
             }
         };
     }
-    match case % 5 {
+    match case % 6 {
+        5 => by_cols!(Rgb),
         0 => by_cols!(u8),
         1 => by_cols!(u32),
         2 => by_cols!(f32),
